@@ -15,6 +15,7 @@ def explore(ck, name, cfg, rounds, per_round, label):
     sim = game.simulation
     ids = reqwalk.KeyIds()
     coq_in = []
+    seen = {}
     for rd in range(rounds):
         if rd in (1, 3):
             # bring every powered-off node back up so that the post-start-up state (declared-OFF nodes, nodes the
@@ -27,7 +28,15 @@ def explore(ck, name, cfg, rounds, per_round, label):
                 game.advance_timestep()
         inv = world.inventory(sim)
         cat = world.catalogue(inv, rng, missing=True)
-        batch = rng.sample(cat, min(per_round, len(cat)))
+        # stratified: every (action type, node) group is visited before any group is visited twice
+        groups = {}
+        for c in cat:
+            groups.setdefault((c[0], docmask_node(c[1])), []).append(c)
+        order = sorted(groups, key=lambda g: (seen.get(g, 0), rng.random()))
+        batch = []
+        for g in order[:per_round]:
+            seen[g] = seen.get(g, 0) + 1
+            batch.append(rng.choice(groups[g]))
         # the whole live tree, sampled, so that every kind of path is visited, not only those actions use
         paths = sim._request_manager.get_request_types_recursively()
         reqs = [(t, o, ex, None) for (t, o, ex) in batch]
@@ -106,6 +115,10 @@ def explore(ck, name, cfg, rounds, per_round, label):
                       mism[0][0], mism[0][1], coq_in[mism[0][0]][1], coq_in[mism[0][0]][0][-300:]))
 
 
+def docmask_node(o):
+    return o.get("node_name") or o.get("source_node") or o.get("target_nodename") or o.get("target_router") or o.get("target_firewall_nodename")
+
+
 def scenarios(ck):
     out = [("pkg/data_manipulation.yaml", world.load_cfg(world.PKG + "/data_manipulation.yaml"))]
     from lib import family
@@ -128,7 +141,7 @@ def run(ck):
     coq_props(ck)
     gen_tie.check(ck, ["reqtree"])
     for i, (name, cfg) in enumerate(scenarios(ck)):
-        explore(ck, name, cfg, rounds=ck.n(5, 12), per_round=ck.n(45, 120), label=str(i))
+        explore(ck, name, cfg, rounds=ck.n(5, 12), per_round=ck.n(70, 150), label=str(i))
 
 
 def replay(ck, path):
